@@ -284,19 +284,42 @@ def replay_failure(group, h, o, hooks, stubbing, extra_args):
     rdir = os.path.join(REPLAYS, pid)
     os.makedirs(rdir, exist_ok=True)
     if not cands:
-        # a harness without symbolic inputs has nothing to play back: the native run of the same function decides
-        vp = os.path.join(rdir, f"{h.name}.vals")
-        with open(vp, "w") as f:
-            f.write(f"# harness={h.name} group={group} (no symbolic inputs)\n# replay: /verif/check {pid} --replay {vp}\n")
-        rr = run_replay_file(group, h.name, vp, hooks)
-        o.sample = {"harness": h.name, "failed_check": "; ".join(o.failed_checks)[:300], "counterexample_values_hex": [], "native_replay": rr}
-        if any(v.startswith("reproduced") for v in rr.values()):
+        # Kani printed no test for the failed assertion (it does that for harnesses without symbolic inputs, and sometimes when a
+        # cover test was generated instead). The native confirmation then runs the very same harness function natively: first on
+        # the values of any cover test, then on the empty value file, then on random inputs (the solver has already decided that a
+        # violating input exists; the native runs only have to exhibit one).
+        tries = [(f"cover test values", t[3]) for t in tests] + [("no symbolic inputs", [])]
+        for what, vals in tries:
+            vp = os.path.join(rdir, f"{h.name}.vals")
+            with open(vp, "w") as f:
+                f.write(f"# harness={h.name} group={group} ({what})\n# replay: /verif/check {pid} --replay {vp}\n")
+                f.write("\n".join(vals) + ("\n" if vals else ""))
+            rr = run_replay_file(group, h.name, vp, hooks)
+            o.sample = {"harness": h.name, "failed_check": "; ".join(o.failed_checks)[:300], "counterexample_values_hex": vals[:24], "native_replay": rr}
+            if any(v.startswith("reproduced") for v in rr.values()):
+                o.replay, o.reproduced = vp, True
+                o.detail += f" | native replay ({what}): {rr}"
+                return
+        bins = build_replay(group, hooks)
+        rnd = {}
+        for prof, b in bins.items():
+            if b is None:
+                continue
+            try:
+                r = subprocess.run([b, h.name, "--random", "20000", "1"], capture_output=True, text=True, timeout=300)
+                rnd[prof] = (r.returncode, (r.stdout.strip().splitlines() or [""])[-1][:300])
+            except subprocess.TimeoutExpired:
+                rnd[prof] = (None, "timeout")
+        o.sample["native_random_runs"] = rnd
+        if any(rc == 1 for rc, _ in rnd.values()):
+            vp = os.path.join(rdir, f"{h.name}.random")
+            open(vp, "w").write(f"# harness={h.name} group={group}: reproduce with `replay {h.name} --random 20000 1`\n")
             o.replay, o.reproduced = vp, True
-            o.detail += f" | native replay (harness without symbolic inputs): {rr}"
-        else:
-            o.status = "error"
-            o.reproduced = False
-            o.detail += " | no concrete playback produced and the native run does not fail (non-reproducible class of failure, e.g. a pointer check)"
+            o.detail += f" | native confirmation by random inputs of the same harness: {rnd}"
+            return
+        o.status = "error"
+        o.reproduced = False
+        o.detail += " | no concrete playback produced and the native runs do not fail (non-reproducible class of failure, e.g. a pointer check)"
         return
     best = None
     for kind, desc, name, vals in cands:
